@@ -79,6 +79,8 @@ type Bind struct {
 	// Errors to return.
 	OpenErr error
 	SendErr error
+	// MarkErr is returned by SetMark (the mark is not changed).
+	MarkErr error
 	// CloseErr is returned by Close AFTER the bind has really been closed
 	// (like StdNetBind.Close when a socket close fails).
 	CloseErr error
@@ -182,6 +184,10 @@ func (b *Bind) Close() error {
 func (b *Bind) SetMark(m uint32) error {
 	b.mu.Lock()
 	defer b.mu.Unlock()
+	if b.MarkErr != nil {
+		b.log = append(b.log, BindEvent{Seq: next(), T: time.Now(), Kind: "setmark-refused"})
+		return b.MarkErr
+	}
 	b.Mark = m
 	b.log = append(b.log, BindEvent{Seq: next(), T: time.Now(), Kind: "setmark"})
 	return nil
